@@ -621,3 +621,29 @@ def opAlias (st : St) (head pathToks aliasToks allocToks : List String) : String
        else "dev-ok " ++ model
      | _, _, _ => "skip unresolved-input")
   | _, _ => "skip bad-record"
+
+/-- CM <tid> <name> | <alive> <judged> | <kind:expr> — did the generator's output for this declaration compile? -/
+def opCompiles (st : St) (head flagToks : List String) : String :=
+  match head, flagToks with
+  | [_, tid, _name], [alive, judged] =>
+    (match st.types[tid]? with
+     | some n =>
+       match uncompilable n, alive == "1" with
+       | none, true => "agree"
+       | some c, false => "known uncompilable-" ++ c
+       | none, false => if judged == "1" then "dev-viol compiles-per-model" else "skip sampled-shape-does-not-compile"
+       | some c, true => if judged == "1" then "dev-ok uncompilable-" ++ c else "skip sampled-shape-compiles"
+     | none => "skip unresolved-input")
+  | _, _ => "skip bad-record"
+
+/-- RG <tid> <name> | <TypeName()> <registry ok> -/
+def opRegistry (st : St) (head outToks : List String) : String :=
+  match head, outToks with
+  | [_, tid, name], [tn, reg] =>
+    (match st.types[tid]? with
+     | some n =>
+       -- the inspector reports the declared type's name and is retrievable under it
+       if untok tn == n.typn && (n.typn == name || n.name == name) && reg == "1" then "agree"
+       else "dev-viol typename=" ++ tn ++ " registry=" ++ reg
+     | none => "skip unresolved-input")
+  | _, _ => "skip bad-record"
